@@ -8,33 +8,50 @@ PROOF_FILES = ['Proofs/NnxLift.v', 'Proofs/LinenLoop.v']
 ASSUMPTIONS = [
     'lax.scan = fold over the iterations, jax.vmap = map over the index with batchedness tracked by dependency (idealised, not verified); unroll does not occur in the model',
     'an axis collection is represented by its slices along the declared axis: the transpose_to_front / moveaxis arithmetic of the code is tied to the model by the correspondence (non-square shapes)',
-    'loop bodies are integer programs over the variables of one module (C08 body language); the collections ax0 / ax1 / bc / carry play the roles axis 0 / axis 1 / broadcast / carry',
+    'loop bodies are integer programs over the variables of one module (C08 body language); the collections ax0 / ax1 / ax2 / axm1 / bc / carry play the roles axis 0 / 1 / 2 / -1 / broadcast / carry',
     'keys are compared by equality pattern only (split: pairwise distinct per iteration, unsplit: identical)',
 ]
 HEADER = 'From Flaxm Require Import Lib.Harness Model.NnxFilters Model.NnxLift Model.LinenLoop.\nOpen Scope Z_scope.\n'
+
+
+def full_shape(slice_shape, spec, L):
+  """shape of an axis collection's variable: the per-step shape with the scan axis inserted at position spec (negative: from the end)"""
+  if not isinstance(spec, int):
+    return list(slice_shape)
+  pos = spec if spec >= 0 else len(slice_shape) + 1 + spec
+  return list(slice_shape[:pos]) + [L] + list(slice_shape[pos:])
 
 
 def gen_remat_scan(rng):
   lengths = [rng.randint(1, 3) for _ in range(rng.randint(1, 3))]
   n = int(np.prod(lengths))
   return {'kind': 'remat_scan', 'lengths': lengths, 'a': rng.choice([1, 2, -1]), 'w': np.array([rng.randint(-3, 3) for _ in range(n)]).reshape(lengths).tolist(), 'winit': rng.randint(-2, 2),
-          'c0': rng.randint(-2, 2)}
+          'c0': rng.randint(-2, 2), 'draw': rng.random() < 0.5, 'split_noise': rng.random() < 0.5}
+
+
+def gen_axes(rng):
+  rank = rng.randint(1, 3)
+  shape = rng.choice([[2], [3]]) if rank == 1 else rng.choice([[2, 3], [3, 2], [1, 2]]) if rank == 2 else rng.choice([[2, 3, 1], [1, 2, 3], [2, 1, 2]])
+  ax = lambda: rng.choice(list(range(rank + 1)) + [-(k + 1) for k in range(rank + 1)])
+  return {'kind': 'axes', 'length': rng.choice([2, 4, 5]), 'shape': shape, 'in_axis': ax(), 'out_axis': ax(), 'var_axis': ax(), 'reverse': rng.random() < 0.3,
+          'c0': rng.randint(-2, 2), 'seed': rng.randint(0, 10 ** 6)}
 
 
 def gen_case(rng, kind):
   if kind == 'remat_scan':
     return gen_remat_scan(rng)
+  if kind == 'axes':
+    return gen_axes(rng)
   L = rng.randint(1, 4)
   nv = rng.randint(1, 5)
   vars_ = []
   for j in range(nv):
-    spec = rng.choice([0, 0, 1, None, 'carry'] if kind == 'scan' else [0, 0, 1, None, None])
-    rank = rng.randint(1 if spec == 1 else 0, 2)
+    spec = rng.choice([0, 0, 1, 2, -1, None, 'carry'] if kind == 'scan' else [0, 0, 1, 2, -1, None, None])
+    rank = 2 if spec == 2 else rng.randint(1 if spec == 1 else 0, 2)
     slice_shape = [rng.randint(1, 3) for _ in range(rank)]
-    if isinstance(spec, int):
-      full = slice_shape[:spec] + [L] + slice_shape[spec:]
-    else:
-      full = slice_shape
+    if spec == 2:
+      slice_shape = rng.choice([[2, 3], [3, 2], [1, 3], [2, 1]])     # non-square: a wrong permutation changes the shape or the values
+    full = full_shape(slice_shape, spec, L)
     size = int(np.prod(full)) if full else 1
     val = np.array([rng.randint(-3, 4) for _ in range(size)], dtype=np.int64).reshape(full).tolist()
     vars_.append({'spec': spec, 'slice_shape': slice_shape, 'val': val, 'init': rng.randint(-2, 3), 'path': [str(j)], 'type': 'Param'})
@@ -65,7 +82,7 @@ def cvars(d, init=False):
   for j, v in enumerate(d['vars']):
     val = v['val']
     if init:
-      full = v['slice_shape'][:v['spec']] + [d['length']] + v['slice_shape'][v['spec']:] if isinstance(v['spec'], int) else v['slice_shape']
+      full = full_shape(v['slice_shape'], v['spec'], d['length'])
       val = np.full(full, v['init'], dtype=np.int64).tolist()
     out.append('(mkVar (mkLeaf [%s] [] None 0%%N) %s)' % (cN(j), cvval(v, val)))
   return clist(out)
@@ -79,7 +96,7 @@ def run(chk):
   rng = chk.rng
   thorough = chk.tier == 'thorough'
   chk.proofs(PROOF_FILES)
-  cases = [gen_case(rng, ['scan', 'vmap', 'scan', 'vmap', 'remat_scan'][i % 5]) for i in range(1600 if thorough else 160)]
+  cases = [gen_case(rng, ['scan', 'vmap', 'scan', 'vmap', 'remat_scan', 'axes'][i % 6]) for i in range(1800 if thorough else 180)]
   W = 12
   results = common.run_impl_parallel('impl_c06.py', [{'cases': cases[i::W]} for i in range(W)], workers=W, timeout=3000)
   obs = [None] * len(cases)
@@ -90,6 +107,18 @@ def run(chk):
   f25 = []
   stat = {'scan': 0, 'vmap': 0, 'apply_err': 0, 'init_err': 0, 'bcast_write': 0}
   for d, o in zip(cases, obs):
+    if d['kind'] == 'axes':
+      chk.count(d, max(d['in_axis'], d['out_axis'], d['var_axis']) >= 2 or min(d['in_axis'], d['out_axis'], d['var_axis']) < 0)
+      stat['axes'] = stat.get('axes', 0) + 1
+      r = o.get('ok', o)
+      if 'err' in r or 'ok' not in r:
+        chk.violation('oracle', 'nn.scan with in_axes / out_axes / variable_axes at other positions could not be run: %s' % r.get('err'), {'case': d, 'msg': r.get('msg'), 'tb': o.get('tb')})
+        continue
+      r = r['ok']
+      if not (r['ys_ok'] and r['trace_ok'] and r['carry_ok']) or r['init_trace_shape'] != r['exp_trace_shape']:
+        chk.violation('oracle', 'nn.scan differs from the Python loop with stacked outputs / variables when the scan axis is not leading '
+                      '(in_axes=%s, out_axes=%s, variable_axes=%s on per-step shape %s)' % (d['in_axis'], d['out_axis'], d['var_axis'], d['shape']), {'case': d, 'observed': r})
+      continue
     if d['kind'] == 'remat_scan':
       chk.count(d, len(d['lengths']) > 1)
       stat['remat_scan'] = stat.get('remat_scan', 0) + 1
@@ -101,6 +130,9 @@ def run(chk):
       if 'err' in r['apply'] or 'err' in r['loop'] or r['apply']['ok'] != r['loop']['ok']:
         chk.violation('oracle', 'nn.remat_scan(lengths) differs from the loop over prod(lengths) layers', {'case': d, 'observed': r})
         continue
+      if d.get('draw') and r.get('distinct_keys') != (n if d['split_noise'] else 1):
+        chk.violation('oracle', 'nn.remat_scan: a stream declared %s in split_rngs gave %s distinct keys over %d layers' % ('split' if d['split_noise'] else 'unsplit', r.get('distinct_keys'), n),
+                      {'case': d, 'observed': r})
       if 'err' in r['init'] or r['init']['ok']['shape'] != d['lengths']:
         chk.violation('oracle', 'init through nn.remat_scan does not create one parameter slice per layer (shape = lengths)', {'case': d, 'observed': r['init']})
       rows.append((d, o, '(weq (fold_left (fun c w => %s * c + w) %s %s) %s)' % (cZ(d['a']), clist([cZ(int(z)) for z in np.array(d['w']).reshape(-1)]), cZ(d['c0']), cZ(r['apply']['ok']['out']))))
@@ -163,8 +195,8 @@ def run(chk):
       chk.violation('oracle', 'init through nn.%s raised %s' % (d['kind'], ini['err']), {'case': d, 'msg': ini.get('msg')})
     else:
       for j, v in enumerate(d['vars']):
-        full = v['slice_shape'][:v['spec']] + [d['length']] + v['slice_shape'][v['spec']:] if isinstance(v['spec'], int) else v['slice_shape']
-        col = {0: 'ax0', 1: 'ax1', None: 'bc', 'carry': 'carry'}[v['spec']]
+        full = full_shape(v['slice_shape'], v['spec'], d['length'])
+        col = {0: 'ax0', 1: 'ax1', 2: 'ax2', -1: 'axm1', None: 'bc', 'carry': 'carry'}[v['spec']]
         if ini['ok']['shapes'][col]['v%d' % j] != full:
           chk.violation('oracle', 'init through nn.%s gives a variable the wrong shape (one slice per iteration along the declared axis / broadcast initialised once)' % d['kind'],
                         {'case': d, 'var': j, 'shape': ini['ok']['shapes'][col]['v%d' % j], 'expected': full})
@@ -195,7 +227,7 @@ Definition chk (b : bool) : bool := b.
     else:
       chk.violation('oracle', what, {'probe': pr['F25-scan-broadcast-write-once'], 'generated': f25[:2]})
   chk.notes['stats'] = stat
-  chk.cov['rule'] = ('modules with 1-5 variables in the collections ax0 / ax1 / bc / carry (variable_axes 0 and 1, variable_broadcast, variable_carry) of rank 0-3 with non-square shapes x '
+  chk.cov['rule'] = ('modules with 1-5 variables in the collections ax0 / ax1 / ax2 / axm1 / bc / carry (variable_axes 0, 1, 2 and -1, variable_broadcast, variable_carry) of rank 0-3 with non-square shapes x '
                      'integer bodies (C08 language) x lengths 1-4 x reverse x unroll 1-3 x split_rngs patterns over two streams; apply on stacked variables and init; nn.scan and nn.vmap. '
                      'non-trivial = length > 1 and at least two roles')
   chk.cov['trusted_base'] = ['Coq 8.16.1 kernel + vm_compute', 'harness/c06.py, impl_c06.py, c08.py', 'harness/jaxcompat.py', 'lax.scan, jax.vmap']
